@@ -4,7 +4,7 @@ property statements (C01, C02, C09) and docs/, independent of behave's run() met
 It is executed *after* the real run on the same path, reading the same symbolic values (which the
 path condition has already decided wherever the real code looked at them).  Scope: runs without a
 raising hook/cleanup (those are covered by ground-truth events and by C12's self-composition)."""
-from .world import (OUT_ASSERT, OUT_EXC, OUT_PENDING, OUT_KBD, OUT_SKIP, OUT_ABORT)
+from .world import (OUT_ASSERT, OUT_EXC, OUT_PENDING, OUT_KBD, OUT_SKIP, OUT_ABORT, OUT_SKIPFAIL)
 
 
 class Expect(object):
@@ -51,6 +51,8 @@ def runspec(world, flags):
             if world.sx.symbolic:
                 return bool(SymBool(f))
             return z3.is_true(z3.simplify(f))
+        if e.eid in getattr(world, "pre_skipped", ()):
+            return False        # excluded at run time by another element's hook before it started: like a de-selected one
         if not select:
             return True
         r = False
@@ -108,7 +110,7 @@ def runspec(world, flags):
                     continue
                 ex.calls.append((sc.eid, src))
                 o = world.out(sc.eid, src)
-                if o == OUT_ASSERT:
+                if o == OUT_ASSERT or o == OUT_SKIPFAIL:
                     s = "failed"
                 elif o == OUT_EXC:
                     s = "error"
